@@ -4,7 +4,7 @@ package sr25519
 
 import "github.com/oasisprotocol/curve25519-voi/internal/verif"
 
-//verif:ob prop=C08 name=ct_sr25519_sign mode=bv tags=purego ct=1 use=gapi,strobe.kf_keccak
+//verif:ob prop=C08,C18 name=ct_sr25519_sign mode=bv tags=purego ct=1 use=gapi,strobe.kf_keccak sharedro=1
 func vh_C08_sr_sign() {
 	verif.Secret("key")
 	verif.Secret("nonce")
